@@ -54,8 +54,28 @@ def _prelude():
 
     def is_int(x):
         return isinstance(x, int) and not isinstance(x, bool)
+    def py_float_ok(s):
+        try:
+            float(s)
+            return True
+        except (ValueError, OverflowError):
+            return False
+
+    def py_float(s):
+        return float(s)
+
+    def py_int_ok(s):
+        try:
+            int(s)
+            return True
+        except ValueError:
+            return False
+
+    def py_strip(s):
+        return s.strip()
     return dict(forall_n=forall_n, forall=forall, exists=exists, implies=implies, iff=iff, ite=ite, is_none=is_none, real=real,
-                pow2=pow2, floor=floor, seq=seq, is_int=is_int)
+                pow2=pow2, floor=floor, seq=seq, is_int=is_int, py_float_ok=py_float_ok, py_float=py_float, py_int_ok=py_int_ok,
+                py_int=int, py_strip=py_strip)
 
 
 class _Lazy(ast.NodeTransformer):
